@@ -3,6 +3,14 @@
 import json, subprocess, sys
 sys.path.insert(0, '/verif/tools')
 from manifest_data import CHECKS, NOT_APPLICABLE, HOOK_COMMITS
+# the guarded (build tag verif) commits of /repo are those whose subject starts with "verif:"; read them from the log
+try:
+    out = subprocess.run(['git', '-C', '/repo', 'log', '--reverse', '--format=%h %s'], capture_output=True, text=True, check=True).stdout
+    hc = [l.split()[0] for l in out.splitlines() if len(l.split()) > 1 and l.split()[1] == 'verif:']
+    if hc:
+        HOOK_COMMITS = hc
+except Exception:
+    pass
 props = [json.loads(l) for l in open('/verif/properties.jsonl')]
 ids = [p['id'] for p in props]
 checks = []
